@@ -420,6 +420,165 @@ fn c07_decoder_rejects(rep: &mut Report) {
     rep.notes.push(format!("c07-open-bytes: {n} OPEN encodings (version × hold time × identifier) through PeerCodec::parse_message"));
 }
 
+/// Driver-level conformance: replay a model history against two REAL session tasks
+/// (accept_connection + PeerSession::run for both roles over loopback) and compare the
+/// ConnArbiter's FSM states and the NOTIFICATIONs seen on the wire with the model.
+/// Histories containing inputs the harness cannot inject on demand (timer expiries,
+/// update-sent) are not replayable and are skipped.
+fn c07_driver_replay(m: &FsmModel, hist: &[u16]) -> Result<Option<Vec<(String, String)>>, String> {
+    use crate::event::verif_event::common::*;
+    use std::net::{IpAddr, Ipv4Addr};
+    for &op in hist {
+        if matches!(m.ops[op as usize].1, In::KeepaliveTimer | In::HoldTimer | In::UpdateSent) {
+            return Ok(None);
+        }
+    }
+    let rt = runtime();
+    let daemon_id: u32 = u32::from(Ipv4Addr::new(10, 0, 0, 254));
+    let remote_id = match m.remote_id.cmp(&LOCAL_ID) {
+        std::cmp::Ordering::Less => daemon_id - 1,
+        std::cmp::Ordering::Equal => daemon_id,
+        std::cmp::Ordering::Greater => daemon_id + 1,
+    };
+    rt.block_on(async {
+        let d = Daemon::new(1);
+        let addr = IpAddr::V4(Ipv4Addr::new(127, 0, 7, 1));
+        add_simple_peer(&d, addr, m.local_hold, m.expected_asn).await?;
+        let mut model = m.init();
+        let mut conns: [Option<Conn>; 2] = [None, None];
+        let idx = |r: Role| if r == Role::Active { 0 } else { 1 };
+        let mut out: Vec<(String, String)> = Vec::new();
+        let mut notifs: Vec<(usize, u8, u8)> = Vec::new();
+        for (step, &op) in hist.iter().enumerate() {
+            let (role, ref input) = m.ops[op as usize];
+            let mut sink = Vec::new();
+            m.step(&mut model, op as usize, &mut sink);
+            match input {
+                In::Connected => {
+                    if conns[idx(role)].is_some() {
+                        // a second TCP connection of the same direction while one is live: refused by accept_connection
+                        match connect(&d, addr, role).await? {
+                            None => {}
+                            Some(mut c) => {
+                                out.push(("C07/driver/second-connection-accepted".into(), format!("step {step}: a second {} connection was accepted while one is live", role_name(role))));
+                                c.wait_end(true).await;
+                            }
+                        }
+                    } else if let Some(c) = connect(&d, addr, role).await? {
+                        conns[idx(role)] = Some(c);
+                    }
+                }
+                In::Disconnected => {
+                    if let Some(mut c) = conns[idx(role)].take() {
+                        c.wait_end(true).await;
+                    }
+                }
+                In::AdminShutdown => {
+                    if conns[idx(role.other())].is_some() && model.connection(role.other()).is_some() {
+                        return Ok(None); // the API shuts down both connections at once; not the model's per-role input
+                    }
+                    if conns[idx(role)].is_some() {
+                        admin_shutdown(&d, addr).await;
+                    }
+                }
+                other => {
+                    if let Some(c) = conns[idx(role)].as_mut() {
+                        let msg = match other {
+                            In::Open { asn, hold, gr } => {
+                                let mut capability = vec![Capability::MultiProtocol(Family::IPV4), Capability::FourOctetAsNumber(*asn)];
+                                if *gr {
+                                    capability.push(Capability::GracefulRestart { flags: 0, restart_time: 120, families: vec![(Family::IPV4, 0x80)] });
+                                }
+                                bgp::Message::Open(bgp::Open { as_number: *asn, holdtime: HoldTime::new(*hold).unwrap(), router_id: remote_id, capability })
+                            }
+                            In::Keepalive => bgp::Message::Keepalive,
+                            In::Update => bgp::Message::eor(Family::IPV4),
+                            In::Notification => bgp::Message::Notification(Notification::CeaseAdminShutdown),
+                            _ => bgp::Message::RouteRefresh { family: Family::IPV4 },
+                        };
+                        c.send(&msg).await;
+                    }
+                }
+            }
+            // wait until the real arbiter shows the model's states
+            let want = (model.state(Role::Active), model.state(Role::Passive));
+            let t0 = std::time::Instant::now();
+            let mut got = (State::Idle, State::Idle);
+            loop {
+                if let Some((a, p, _, _)) = arbiter_view(&d, addr).await {
+                    got = (a, p);
+                }
+                if got == want || t0.elapsed() > std::time::Duration::from_secs(10) {
+                    break;
+                }
+                tokio::time::sleep(std::time::Duration::from_micros(300)).await;
+            }
+            if got != want {
+                out.push((
+                    format!("C07/driver/state-mismatch/{:?}-vs-{:?}", want, got).replace(' ', ""),
+                    format!("step {step} ({}:{}): the model says (active, passive) = {:?}, the live ConnArbiter shows {:?}", role_name(role), in_name(input), want, got),
+                ));
+                break;
+            }
+            // connections the model considers gone must have been closed by the daemon; collect NOTIFICATIONs
+            for r in [Role::Active, Role::Passive] {
+                if model.connection(r).is_none() {
+                    if let Some(mut c) = conns[idx(r)].take() {
+                        loop {
+                            match tokio::time::timeout(std::time::Duration::from_secs(10), c.read_msg()).await {
+                                Ok(Ok(Some(bgp::ParsedMessage::Notification(n)))) => notifs.push((idx(r), n.notification_code(), n.notification_subcode())),
+                                Ok(Ok(Some(_))) => continue,
+                                Ok(Ok(None)) | Ok(Err(_)) => break,
+                                Err(_) => {
+                                    out.push(("C07/driver/connection-not-closed".into(), format!("step {step}: the {} connection is gone in the model but the daemon keeps the TCP connection open", role_name(r))));
+                                    break;
+                                }
+                            }
+                        }
+                        c.wait_end(true).await;
+                    }
+                }
+            }
+            // wire check for this step
+            let is_msg = matches!(input, In::Open { .. } | In::Keepalive | In::Update | In::RouteRefresh);
+            let went_down = model.connection(role).is_none();
+            if is_msg && went_down && sink.is_empty() {
+                let mine: Vec<&(usize, u8, u8)> = notifs.iter().filter(|n| n.0 == idx(role)).collect();
+                if mine.is_empty() {
+                    out.push(("C07/driver/no-notification-on-wire".into(), format!("step {step} ({}:{}): the connection was torn down but no NOTIFICATION reached the peer", role_name(role), in_name(input))));
+                }
+            }
+            notifs.retain(|n| n.0 != idx(role));
+        }
+        // slots of the real arbiter must be free for connections that are gone
+        if let Some((_, _, act_slot, pas_slot)) = arbiter_view(&d, addr).await {
+            // the close-channel slot is cleared by apply_disconnect after the task has ended
+            for (r, slot) in [(Role::Active, act_slot), (Role::Passive, pas_slot)] {
+                if model.connection(r).is_none() && conns[idx(r)].is_none() && slot {
+                    // give the ending task a moment
+                    let mut still = true;
+                    for _ in 0..2000 {
+                        tokio::time::sleep(std::time::Duration::from_micros(300)).await;
+                        if let Some((_, _, a, p)) = arbiter_view(&d, addr).await {
+                            still = if r == Role::Active { a } else { p };
+                            if !still {
+                                break;
+                            }
+                        }
+                    }
+                    if still {
+                        out.push(("C07/driver/slot-not-freed".into(), format!("the {} close-channel slot is still occupied after the connection ended", role_name(r))));
+                    }
+                }
+            }
+        }
+        for c in conns.iter_mut().flatten() {
+            c.wait_end(true).await;
+        }
+        Ok(Some(out))
+    })
+}
+
 pub(crate) fn run_c07(replay: Option<&str>) -> Report {
     let mut rep = Report::new("C07", "hd-c07");
     let models = c07_models();
@@ -431,6 +590,10 @@ pub(crate) fn run_c07(replay: Option<&str>) -> Report {
             c07_decoder_rejects(&mut rep);
             return rep;
         }
+        let (driver, case) = match case.strip_prefix("driver#") {
+            Some(c) => (true, c),
+            None => (false, case),
+        };
         let Some((name, hist)) = bfs::decode_case(case) else {
             rep.machinery_error = Some("bad replay case".into());
             return rep;
@@ -440,19 +603,57 @@ pub(crate) fn run_c07(replay: Option<&str>) -> Report {
             return rep;
         };
         eprintln!("replay {}", bfs::render(m, &hist));
-        rep.violations_from(bfs::replay(m, &hist, true));
+        if driver {
+            match c07_driver_replay(m, &hist) {
+                Ok(Some(vs)) => {
+                    for (sig, what) in vs {
+                        eprintln!("  {sig}: {what}");
+                        rep.violation(Violation { sig, what, case: format!("driver#{case}") });
+                    }
+                }
+                Ok(None) => eprintln!("  not replayable at driver level"),
+                Err(e) => rep.machinery_error = Some(e),
+            }
+        } else {
+            rep.violations_from(bfs::replay(m, &hist, true));
+        }
         rep.evaluations = 1;
         return rep;
     }
     rep.rule = "explicit-state BFS to FIXPOINT over the real PeerFsm (both roles, 19 inputs each) per configuration (local hold {0,90} × expected AS {set,any} × identifier order {<,=,>}); oracle = reference transition function + one-survivor invariant on every transition; plus OPEN byte encodings through the real parser; non-trivial = distinct canonical FSM state".into();
+    let mut replayed = 0u64;
+    let mut skipped = 0u64;
     for m in &models {
-        let cfg = BfsCfg { max_depth: 40, max_secs: 600, ..Default::default() };
+        let cfg = BfsCfg { max_depth: 40, max_secs: 600, collect: true, ..Default::default() };
         let st = bfs::bfs(m, &cfg, &mut rep);
         if !st.fixpoint {
             rep.exhaustive = false;
             rep.caps_hit.push(format!("{}: no fixpoint within depth 40", m.name));
         }
+        // bind the model to the I/O driver: the shortest history to every reachable state,
+        // replayed with real session tasks for both roles
+        for h in &st.histories {
+            match c07_driver_replay(m, h) {
+                Ok(None) => skipped += 1,
+                Ok(Some(vs)) => {
+                    replayed += 1;
+                    for (sig, what) in vs {
+                        rep.violation(Violation { sig, what, case: format!("driver#{}", bfs::encode_case(m, h)) });
+                    }
+                }
+                Err(e) => {
+                    rep.machinery_error = Some(format!("c07 driver replay: {e}"));
+                    return rep;
+                }
+            }
+            if let Some(e) = crate::event::verif_event::common::take_machinery() {
+                rep.machinery_error = Some(e);
+                return rep;
+            }
+        }
     }
+    rep.traces_validated = replayed;
+    rep.notes.push(format!("c07-driver-conformance: {replayed} shortest histories (one per reachable model state) replayed against live sessions of both roles; {skipped} not replayable (contain timer expiries / update-sent / a per-role admin shutdown while both connections are live)"));
     c07_decoder_rejects(&mut rep);
     rep
 }
@@ -761,9 +962,121 @@ fn c08_models() -> Vec<TimeModel> {
     v
 }
 
+/// Conformance of the virtual-time interpretation with the real I/O driver: a few timed
+/// traces of the model are replayed in REAL time against a live PeerSession::run over
+/// loopback (the only hold values that make this affordable: negotiated 0 and 3).  These
+/// runs bind the model to the driver; they do not decide the property.
+fn c08_conformance(rep: &mut Report, full: bool) {
+    use crate::event::verif_event::common::*;
+    use std::net::{IpAddr, Ipv4Addr};
+    use std::time::{Duration, Instant};
+    let rt = runtime();
+    let pairs: Vec<(u64, u16)> = if full { vec![(0, 90), (90, 0), (0, 0), (3, 3), (3, 90), (90, 3)] } else { vec![(0, 90), (90, 0), (3, 3)] };
+    let results: Vec<(u64, u16, Result<String, String>)> = rt.block_on(async {
+        let mut handles = Vec::new();
+        for (i, (local, remote)) in pairs.iter().copied().enumerate() {
+            handles.push(tokio::spawn(async move {
+                let d = Daemon::new(1);
+                let addr = IpAddr::V4(Ipv4Addr::new(127, 0, 8, 1 + i as u8));
+                add_simple_peer(&d, addr, local, 65001).await?;
+                let mut c = connect(&d, addr, crate::fsm::Role::Passive).await?.ok_or("refused")?;
+                let caps = vec![Capability::MultiProtocol(Family::IPV4), Capability::FourOctetAsNumber(65001)];
+                if !c.establish(65001, 0x0a000001, remote, caps).await? {
+                    return Err("session did not establish".to_string());
+                }
+                let h = local.min(remote as u64);
+                let t0 = Instant::now();
+                if h == 0 {
+                    // KEEPALIVE, UPDATE, then silence: the session must stay up and nothing timer-driven may arrive
+                    c.send(&bgp::Message::Keepalive).await;
+                    c.send(&bgp::Message::eor(Family::IPV4)).await;
+                    let mut timer_driven = 0;
+                    while t0.elapsed() < Duration::from_millis(2500) {
+                        match tokio::time::timeout(Duration::from_millis(200), c.read_msg()).await {
+                            Ok(Ok(Some(bgp::ParsedMessage::Notification(n)))) => return Ok(format!("VIOLATION zero-hold: NOTIFICATION {}/{} after {:?}", n.notification_code(), n.notification_subcode(), t0.elapsed())),
+                            Ok(Ok(Some(bgp::ParsedMessage::Keepalive))) => timer_driven += 1,
+                            Ok(Ok(None)) => return Ok(format!("VIOLATION zero-hold: session closed after {:?}", t0.elapsed())),
+                            _ => {}
+                        }
+                    }
+                    if c.ended() {
+                        return Ok("VIOLATION zero-hold: session task ended".into());
+                    }
+                    let _ = timer_driven; // KEEPALIVEs answering the barrier are not timer-driven; not asserted
+                    c.wait_end(true).await;
+                    Ok("ok: still established after 2.5 s of KEEPALIVE/UPDATE/silence".into())
+                } else {
+                    // keep the session up for 4 s with a KEEPALIVE per second, count the daemon's KEEPALIVEs
+                    let mut ka = 0;
+                    let mut next = Instant::now();
+                    let mut last_sent = Instant::now();
+                    while t0.elapsed() < Duration::from_millis(4000) {
+                        if Instant::now() >= next {
+                            c.send(&bgp::Message::Keepalive).await;
+                            last_sent = Instant::now();
+                            next += Duration::from_millis(1000);
+                        }
+                        match tokio::time::timeout(Duration::from_millis(100), c.read_msg()).await {
+                            Ok(Ok(Some(bgp::ParsedMessage::Keepalive))) => ka += 1,
+                            Ok(Ok(Some(bgp::ParsedMessage::Notification(n)))) => return Ok(format!("VIOLATION kept-alive session got NOTIFICATION {}/{} after {:?}", n.notification_code(), n.notification_subcode(), t0.elapsed())),
+                            Ok(Ok(None)) => return Ok(format!("VIOLATION kept-alive session closed after {:?}", t0.elapsed())),
+                            _ => {}
+                        }
+                    }
+                    if ka < 2 {
+                        return Ok(format!("VIOLATION keepalive-interval: only {ka} KEEPALIVEs from the daemon in 4 s with a negotiated hold time of 3 s"));
+                    }
+                    // silence: hold-timer expiry must arrive about 3 s after the last thing we sent
+                    loop {
+                        match tokio::time::timeout(Duration::from_millis(6000), c.read_msg()).await {
+                            Ok(Ok(Some(bgp::ParsedMessage::Notification(n)))) => {
+                                let dt = last_sent.elapsed();
+                                if n.notification_code() != 4 {
+                                    return Ok(format!("VIOLATION expected hold-timer NOTIFICATION, got {}/{}", n.notification_code(), n.notification_subcode()));
+                                }
+                                if dt < Duration::from_millis(2500) || dt > Duration::from_millis(5500) {
+                                    return Ok(format!("VIOLATION expiry-time: hold-timer NOTIFICATION {:?} after the last KEEPALIVE (negotiated 3 s)", dt));
+                                }
+                                c.wait_end(false).await;
+                                return Ok(format!("ok: {ka} KEEPALIVEs in 4 s, expiry {:?} after the last KEEPALIVE", dt));
+                            }
+                            Ok(Ok(Some(_))) => continue,
+                            Ok(Ok(None)) => return Ok("VIOLATION session closed without hold-timer NOTIFICATION".into()),
+                            Ok(Err(e)) => return Err(e),
+                            Err(_) => return Ok("VIOLATION no hold-timer expiry within 6 s of silence (negotiated 3 s)".into()),
+                        }
+                    }
+                }
+            }));
+        }
+        let mut out = Vec::new();
+        for (h, (l, r)) in handles.into_iter().zip(pairs.iter().copied()) {
+            out.push((l, r, h.await.unwrap_or_else(|e| Err(format!("task: {e}")))));
+        }
+        out
+    });
+    for (l, r, res) in results {
+        match res {
+            Ok(msg) if msg.starts_with("VIOLATION") => {
+                rep.violation(Violation { sig: format!("C08/driver-conformance/{}", msg.split(':').next().unwrap_or("").replace("VIOLATION ", "").replace(' ', "-")), what: format!("live session local hold {l} / remote hold {r}: {msg}"), case: format!("conformance#{l}#{r}") });
+                rep.traces_validated += 1;
+            }
+            Ok(msg) => {
+                rep.traces_validated += 1;
+                rep.notes.push(format!("c08-conformance local {l} / remote {r}: {msg}"));
+            }
+            Err(e) => rep.machinery_error = Some(format!("c08 conformance ({l},{r}): {e}")),
+        }
+    }
+}
+
 pub(crate) fn run_c08(replay: Option<&str>) -> Report {
     let mut rep = Report::new("C08", "hd-c08");
     let models = c08_models();
+    if replay.is_some_and(|c| c.starts_with("conformance#")) {
+        c08_conformance(&mut rep, true);
+        return rep;
+    }
     if let Some(case) = replay {
         let Some((name, hist)) = bfs::decode_case(case) else {
             rep.machinery_error = Some("bad replay case".into());
@@ -785,5 +1098,7 @@ pub(crate) fn run_c08(replay: Option<&str>) -> Report {
         let cfg = BfsCfg { max_depth: depth, max_secs: 900, ..Default::default() };
         bfs::bfs(m, &cfg, &mut rep);
     }
+    let thorough = rep.thorough();
+    c08_conformance(&mut rep, thorough);
     rep
 }
